@@ -386,9 +386,8 @@ theorem row_num (head n : Txt) (hh : rstrip head = head) (hhe : '=' ∉ head) (h
         have := cleanRow_zero head [' '] [' '] n [] hh hhe allSpace_blank allSpace_blank allSpace_nil hs heq hf
           (by simpa using hi) (by rw [← e4]; exact hm.1) (by rw [← e4]; exact hm.2)
         have e5 : head ++ [' '] ++ '=' :: ([' '] ++ n ++ []) = head ++ t " = " ++ n := by simp [t]
-        have e6 : head ++ t " = " ++ t "0" = head ++ t " = 0" := by simp [t]
         rw [e5] at this
-        rw [e6]; exact this
+        exact this
       · rw [if_neg (by simpa using hc)]
         exact cleanRow_unchanged head n hh hhe hs heq (Or.inr ⟨c, hf, hc⟩) hm.1 hm.2
 
@@ -593,7 +592,8 @@ end File
 
 /-- **the file `Klattgrid.save` writes**: row by row (each row followed by a newline) it is the layout
 `fileLines` of the tree whose point numerals have been normalised by `cz` (a zero-valued literal that `int()`
-rejects — `0.0`, `-0.0` — becomes `0`; every other numeral is kept as given). -/
+rejects becomes `0` — `0.0` — or `-0` when it starts with a minus sign — `-0.0`; every other numeral is kept as
+given). -/
 theorem fileText_layout (xmin xmax : Txt) (secs : List WSec) (h : File.WriterOk xmin xmax secs) :
     fileText xmin xmax secs = join ['\n'] (fileLines xmin xmax (secs.map cleanWSec)) ++ ['\n'] := by
   unfold fileText
@@ -637,7 +637,7 @@ theorem exSecs_ok : WriterOk (t "0") (t "1.5") exSecs := by decide
      "phonation? <exists>\nxmin = 0\nxmax = 1.5\n" ++
      "pitch? <exists>\nxmin = 0\nxmax = 1.5\npoints: size = 3\n" ++
      "points [1]:\n    number = 0\n    value = 98.61948118117667\n" ++
-     "points [2]:\n    number = 1e-05\n    value = 0\n" ++
+     "points [2]:\n    number = 1e-05\n    value = -0\n" ++
      "points [3]:\n    number = 1\n    value = 1e+22\n" ++
      "oral_formants? <exists>\nxmin = 0\nxmax = 1.5\n" ++
      "formants: size = 2\n" ++
@@ -652,7 +652,7 @@ theorem exSecs_ok : WriterOk (t "0") (t "1.5") exSecs := by decide
   = join ['\n'] (fileLines (t "0") (t "1.5") (exSecs.map cleanWSec)) ++ ['\n']
 
 /-- `cz` on the numerals of the example -/
-example : cz (t "0.0") = t "0" ∧ cz (t "-0.0") = t "0" ∧ cz (t "0") = t "0" ∧ cz (t "55") = t "55" := by decide
+example : cz (t "0.0") = t "0" ∧ cz (t "-0.0") = t "-0" ∧ cz (t "0") = t "0" ∧ cz (t "55") = t "55" := by decide
 
 /-- the hypothesis on intermediate tier names is needed: a name mentioning `max` keeps its `size=k` row as written -/
 example : cleanRow (t "maxima: size=2") = t "maxima: size=2" := by decide
